@@ -17,10 +17,10 @@ use std::panic::{AssertUnwindSafe, catch_unwind};
 use std::str::FromStr;
 use std::sync::{Arc, Barrier};
 
-pub const VARIANTS: [&str; 20] = [
+pub const VARIANTS: [&str; 22] = [
     "sign", "verify-good", "verify-bad", "encrypt", "decrypt-good", "decrypt-bad", "decrypt-wrong-aad", "unwrap-good", "unwrap-bad",
     "pw-unwrap-wrong-password", "unseal-good", "unseal-bad", "id", "clone-drop", "public-key", "pw-unwrap-good", "pw-unwrap-rejected-params",
-    "verify-zero-signature", "decrypt-zero-body", "verify-good-other",
+    "verify-zero-signature", "decrypt-zero-body", "verify-good-other", "seal-key", "wrap-key",
 ];
 
 /// Progress heartbeat: an operation of the library that does not return is data, not a tool failure.  The watchdog
@@ -65,6 +65,7 @@ struct Material {
     local: Vec<u8>,
     secret: Vec<u8>,
     pke_secret: Vec<u8>,
+    pke_public: Vec<u8>,
     tok_local: String,
     tok_local_bad: String,
     tok_public: String,
@@ -141,6 +142,7 @@ fn material<B: Backend>(rng: &mut Prng) -> Material {
         sealed_bad: flip_mid(&sealed),
         local,
         secret: pair.secret,
+        pke_public: rcp.public.clone(),
         pke_secret: rcp.secret,
         tok_local,
         tok_public,
@@ -178,6 +180,17 @@ fn apply<B: Backend>(v: &str, k: &Keys<B>, m: &Material, check: &Keys<B>) -> (Ou
         "encrypt" => {
             let t = UnsealedToken::<B::V, Local, Raw>::new(Raw(b"m".to_vec())).seal(&k.local, aad).map(|t| t.to_string());
             let post = t.as_ref().ok().map(|s| SealedToken::<B::V, Local, Raw>::from_str(s).and_then(|t| t.unseal(&check.local, aad, &nv())).map(|u| u.claims.0 == b"m").unwrap_or(false)).unwrap_or(false);
+            (r(t.map(|s| s.into_bytes())), false, post)
+        }
+        // sealing / wrapping the shared local key (fresh randomness each time): the result opens to the same key with a fresh copy
+        "seal-key" => {
+            let t = key_from_bytes::<B::V, paseto_core::version::PkePublic>(&m.pke_public).and_then(|pk| k.local.clone().seal(&pk)).map(|x| x.to_string());
+            let post = t.as_ref().ok().map(|s| SealedKey::<B::V>::from_str(s).and_then(|w| w.unseal(&check.pke_sec)).map(|x| key_bytes(&x) == m.local).unwrap_or(false)).unwrap_or(false);
+            (r(t.map(|s| s.into_bytes())), false, post)
+        }
+        "wrap-key" => {
+            let t = k.local.clone().wrap_pie(&k.local).map(|x| x.to_string());
+            let post = t.as_ref().ok().map(|s| PieWrappedKey::<B::V, Local>::from_str(s).and_then(|w| w.unwrap(&check.local)).map(|x| key_bytes(&x) == m.local).unwrap_or(false)).unwrap_or(false);
             (r(t.map(|s| s.into_bytes())), false, post)
         }
         "verify-good" | "verify-bad" => {
